@@ -115,6 +115,15 @@ def pool():
     add("fail-flag-type", {"config": {"mnemonics-full-match": "yes", "valid_addr_range": {"min": "0", "max": "ffffffff"}}, "pattern": ["push"]})
     add("fail-not-arity", {"config": {"operands-full-match": True, "valid_addr_range": {"min": "0", "max": "ffffffff"}}, "pattern": [{"$not": ["a", "b"]}]})
     add("fail-undefined-macro", {"macros": [{"name": "@m", "pattern": "push"}], "pattern": ["@nope"]})
+    # a `config:` key with nothing under it (every option commented out): whatever it does, it does the same after any history
+    add("empty-config-key", "config:\npattern:\n  - mov:\n      - rax\n", mode=L)
+    add("empty-config-key-range", "config:\n  # valid_addr_range: {min: '0', max: 'ffffffff'}\npattern:\n  - call:\n      - valid_addr\n", mode=L)
+    # two rules with macros that differ ONLY in the order of the entries of an operator written as one mapping
+    unused = [{"name": "@unused", "pattern": "hlt"}]
+    add("map-order-push-add", {"macros": unused, "pattern": [{"$and": {"push": ["%rbx"], "add": ["%rbx"]}}]}, mode=L)
+    add("map-order-add-push", {"macros": unused, "pattern": [{"$and": {"add": ["%rbx"], "push": ["%rbx"]}}]}, mode=L)
+    add("map-order-lib-push-add", {"pattern": [{"$and": {"push": ["%rbx"], "add": ["%rbx"]}}]}, macros=[{"macros": unused}], mode=L)
+    add("map-order-lib-add-push", {"pattern": [{"$and": {"add": ["%rbx"], "push": ["%rbx"]}}]}, macros=[{"macros": unused}], mode=L)
     return ops
 
 
